@@ -330,6 +330,28 @@ class C05Blocks(Oracle):
                         self.stack.remove(name)
                 else:
                     self.stack.pop()
+        # one End block ends one block: when several blocks end in one tick, as many End block instructions took effect in
+        # it (End blocks, Stop and Restart end all of them)
+        ends_now = [e for e in w.events[self.ev_pos:] if e[1] == "block_end" and e[2] != "root"]
+        if len(ends_now) > 1 and self.tree is not None and "edit" not in w.ctx_flags and \
+                not any(e[1] in ("stop", "start") for e in w.events[self.ev_pos:]):
+            recs = live_records(w)
+            n_end_block = 0
+            end_blocks = False
+            for nid, sts in recs.items():
+                nd = self.node_by_id.get(nid)
+                if nd is None or nd.kind not in ("End block", "End blocks"):
+                    continue
+                hit = sum(1 for st in sts if st[0] == "started" and st[1] == w.tick_no)
+                if nd.kind == "End blocks" and hit:
+                    end_blocks = True
+                n_end_block += hit
+            if not end_blocks and len(ends_now) > n_end_block and not self.tainted:
+                self.v("C05", "C05.more_blocks_ended_than_end_block_instructions", "End block",
+                       f"tick {w.tick_no}: blocks {[e[2] for e in ends_now]} ended, {n_end_block} End block instruction(s) "
+                       f"took effect in it")
+            else:
+                self.res.probe("several_block_ends_in_one_tick_checked")
         if "edit" in w.ctx_flags:
             return      # a live edit re-runs instructions on this tree (recorded under C01): block events repeat
         tagv = w.tag("Block")
@@ -941,6 +963,24 @@ class C04Interrupts(Oracle):
                            f"{trues[:6]} (accepted force requests for it: {self.forced.get(n.id, 0)})")
                 else:
                     self.res.probe("activation_checked")
+            # a Watch / Alarm of a block that has ended never enters its body again (block entered once, outside
+            # repeating scopes: its end is the end)
+            blk = next((a for a in n.ancestors() if a.kind == "Block"), None)
+            if blk is not None and not in_repeating_scope(blk) and not any(a.kind in ("Watch", "Alarm") for a in blk.ancestors()):
+                starts = [e[0] for e in w.events if e[1] == "block_start" and e[2] == blk.arg]
+                ends = [e[0] for e in w.events if e[1] == "block_end" and e[2] == blk.arg]
+                if len(starts) == 1 and ends and "edit" not in w.ctx_flags:
+                    # judged by what the body does (its Marks), not by the activation event: an aborted interrupt may
+                    # still be "activated" with every child skipped
+                    all_tokens = [x.token for x in self.tree.walk() if x.token]
+                    toks = {c.token for c in n.walk() if c.token and c.token[0] == "mark" and all_tokens.count(c.token) == 1}
+                    late = [(e[0], e[2]) for e in w.effects if (e[1], e[2]) in toks and e[0] > ends[0] + 1]
+                    if late:
+                        self.v("C04", "C04.body_ran_after_block_ended", n.kind,
+                               f"{n.kind} {n.arg!r} belongs to block {blk.arg}, which ended in tick {ends[0]}; lines of its body "
+                               f"took effect afterwards: {late[:6]}")
+                    else:
+                        self.res.probe("interrupt_of_ended_block_checked")
             co = self.cancelled_offered_at.get(n.id)
             # a Watch in a repeating scope is registered anew by every invocation of that scope: only activations that
             # follow the cancel without a new registration in between belong to the cancelled invocation
@@ -953,7 +993,7 @@ class C04Interrupts(Oracle):
                        f"{n.kind} {n.arg!r}: cancel offered and accepted after tick {co}, body activated in ticks {late} "
                        f"(registrations {regs})")
             ca = self.cancelled_at.get(n.id)
-            if ca is not None and any(a > ca + 1 for a in acts):
+            if ca is not None and any(a > ca + 1 and not any(ca < r <= a for r in regs) for a in acts):
                 self.v("C04", "C04.body_ran_after_cancel", n.kind,
                        f"{n.kind} {n.arg!r} cancelled in tick {ca} but activated in ticks {acts}")
 
